@@ -20,11 +20,10 @@
 (*                   but without enc()                                     *)
 (***************************************************************************)
 EXTENDS MarkupOps, Json
-CONSTANTS MaxOps, MaxDepth, Strings, DevChoices
+CONSTANTS MaxOps, MaxDepth, Strings, DevChoices, Tags
 VARIABLES prog, hs, dev, phase, k, stack, chars, px
 vars == <<prog, hs, dev, phase, k, stack, chars, px>>
 
-Tags == {hDIV, hSPAN, hA}
 Op(o, tag, pv) == [o |-> o, tag |-> tag, pv |-> pv]
 Depth(p) == Cardinality({q \in 1..Len(p) : p[q].o \in {"BMC", "BDC"}}) - Cardinality({q \in 1..Len(p) : p[q].o = "EMC"})
 Init == /\ hs \in Strings /\ dev \in DevChoices /\ prog = <<>> /\ phase = "build" /\ k = 1 /\ stack = <<>> /\ chars = <<>> /\ px = P0
